@@ -63,6 +63,79 @@ type c32W struct {
 	pk   *packages.Package
 	fd   *ast.FuncDecl
 	recv types.Object
+	// set while the body of a NEW helper (inline.go) is scanned as part of the
+	// method that calls it: the helper's parameters (and receiver) stand for the
+	// argument expressions of the call, which live in the scope of outer
+	subst map[types.Object]ast.Expr
+	outer *c32W
+	depth int
+}
+
+// resolve follows a parameter of an inlined new helper to the argument
+// expression of the call being inlined (and the scope it is written in).
+func (w *c32W) resolve(e ast.Expr) (ast.Expr, *c32W) {
+	for w.subst != nil {
+		id, ok := unparen(e).(*ast.Ident)
+		if !ok {
+			break
+		}
+		arg, ok := w.subst[w.pk.TypesInfo.Uses[id]]
+		if !ok {
+			break
+		}
+		e, w = arg, w.outer
+	}
+	return e, w
+}
+
+// inlineHelper: the call is a static call of a new helper (a function that is
+// not in the baseline and is only ever called statically - code extracted from
+// the anchored methods). Returns a scanner for its body with the parameters
+// bound to the call's arguments, or nil.
+func (w *c32W) inlineHelper(call *ast.CallExpr) *c32W {
+	if w.depth >= 4 || w.p == nil || w.p.SSA == nil {
+		return nil
+	}
+	obj, ok := calleeObj(w.pk, call).(*types.Func)
+	if !ok || obj.Pkg() == nil {
+		return nil
+	}
+	fn := w.p.SSA.FuncValue(obj)
+	if fn == nil || !isNewHelper(fn) {
+		return nil
+	}
+	fd, ok := fn.Syntax().(*ast.FuncDecl)
+	pk := w.p.ByPath[obj.Pkg().Path()]
+	if !ok || fd.Body == nil || pk == nil {
+		return nil
+	}
+	w2 := &c32W{c: w.c, p: w.p, pk: pk, fd: fd, subst: map[types.Object]ast.Expr{}, outer: w, depth: w.depth + 1}
+	var params []*ast.Ident
+	for _, f := range fd.Type.Params.List {
+		if len(f.Names) == 0 {
+			params = append(params, nil)
+		}
+		params = append(params, f.Names...)
+	}
+	sig := obj.Type().(*types.Signature)
+	if sig.Variadic() || len(params) != len(call.Args) {
+		return nil
+	}
+	for i, id := range params {
+		if id != nil && id.Name != "_" {
+			if o := pk.TypesInfo.Defs[id]; o != nil {
+				w2.subst[o] = call.Args[i]
+			}
+		}
+	}
+	if fd.Recv != nil && len(fd.Recv.List) == 1 && len(fd.Recv.List[0].Names) == 1 {
+		if sel, ok := unparen(call.Fun).(*ast.SelectorExpr); ok {
+			if o := pk.TypesInfo.Defs[fd.Recv.List[0].Names[0]]; o != nil {
+				w2.subst[o] = sel.X
+			}
+		}
+	}
+	return w2
 }
 
 func (w *c32W) isVarintType(t types.Type) bool {
@@ -85,6 +158,7 @@ func (w *c32W) isConst(e ast.Expr) bool {
 
 // key names an operand relative to the method receiver.
 func (w *c32W) key(e ast.Expr, anonLocals bool) string {
+	e, w = w.resolve(e)
 	e = unparen(e)
 	switch x := e.(type) {
 	case *ast.Ident:
@@ -96,9 +170,11 @@ func (w *c32W) key(e ast.Expr, anonLocals bool) string {
 		}
 		return x.Name
 	case *ast.SelectorExpr:
-		if id, ok := unparen(x.X).(*ast.Ident); ok {
-			if o := w.pk.TypesInfo.Uses[id]; o != nil && o == w.recv {
-				return x.Sel.Name
+		if bx, bw := w.resolve(x.X); bx != nil {
+			if id, ok := unparen(bx).(*ast.Ident); ok {
+				if o := bw.pk.TypesInfo.Uses[id]; o != nil && o == bw.recv {
+					return x.Sel.Name
+				}
 			}
 		}
 	case *ast.StarExpr:
@@ -141,7 +217,25 @@ func (w *c32W) lenArg(e ast.Expr) ast.Expr {
 
 // opToken classifies the receiver expression of a MarshalTo/MarshalSize call.
 func (w *c32W) opToken(recv ast.Expr) string {
+	recv, w = w.resolve(recv)
 	if e := w.varintConv(recv); e != nil {
+		e, w := w.resolve(e)
+		// an integer conversion around the operand (helper parameters are
+		// typically uint64 / int) does not change what is written
+		for {
+			call, ok := unparen(e).(*ast.CallExpr)
+			if !ok || len(call.Args) != 1 || w.lenArg(e) != nil {
+				break
+			}
+			tv, ok := w.pk.TypesInfo.Types[call.Fun]
+			if !ok || !tv.IsType() {
+				break
+			}
+			if b, isB := tv.Type.Underlying().(*types.Basic); !isB || b.Info()&types.IsInteger == 0 {
+				break
+			}
+			e, w = w.resolve(call.Args[0])
+		}
 		if l := w.lenArg(e); l != nil {
 			return "len(" + w.key(l, false) + ")"
 		}
@@ -184,6 +278,17 @@ func (w *c32W) scan(body ast.Node, wantWrite bool) (toks []string, lits int64, h
 			if inCond(x.Pos()) {
 				return true
 			}
+			// a new helper is scanned in place of its call (its parameters
+			// standing for the arguments): `n += putVarint(buf[n:], m.F)` with
+			// `func putVarint(b []byte, v uint64) int { return varint.Varint(v).MarshalTo(b) }`
+			// is the write of v:F it was extracted from
+			if w2 := w.inlineHelper(x); w2 != nil {
+				t2, l2, if2 := w2.scan(w2.fd.Body, wantWrite)
+				toks = append(toks, t2...)
+				lits += l2
+				hasIf = hasIf || if2
+				return false
+			}
 			if sel, ok := x.Fun.(*ast.SelectorExpr); ok {
 				name := sel.Sel.Name
 				isW := name == "MarshalTo" || name == "marshalTo"
@@ -205,6 +310,16 @@ func (w *c32W) scan(body ast.Node, wantWrite bool) (toks []string, lits int64, h
 					if !wantWrite && id.Name == "len" && len(x.Args) == 1 {
 						toks = append(toks, "b:"+w.key(x.Args[0], false))
 						return false
+					}
+				}
+			}
+		case *ast.Ident:
+			// inside an inlined helper: a size parameter that stands for len(F)
+			// at the call (`func bytesSize(l int) int { return varint.Varint(l).MarshalSize() + l }`)
+			if !wantWrite && w.subst != nil && !inCond(x.Pos()) {
+				if e, ow := w.resolve(x); ow != w {
+					if l := ow.lenArg(e); l != nil {
+						toks = append(toks, "b:"+ow.key(l, false))
 					}
 				}
 			}
@@ -396,12 +511,12 @@ func dropAnon(a []string) []string {
 
 func c32Wire(c *Ctx, p *Prog) {
 	type st struct {
-		pkg, typ          string
-		sizeM, writeM     string
-		decM              string // "" = no order rule
-		full              bool   // compare anonymous varints too
-		message           bool   // framed control message: header stripped, payload-size rule
-		containerNoOrder  string // reason when decM == ""
+		pkg, typ         string
+		sizeM, writeM    string
+		decM             string // "" = no order rule
+		full             bool   // compare anonymous varints too
+		message          bool   // framed control message: header stripped, payload-size rule
+		containerNoOrder string // reason when decM == ""
 	}
 	cm := "internal/protocols/moq/controlmessage"
 	structs := []st{
